@@ -1,4 +1,7 @@
 mod c13;
+mod simnode;
+mod sut;
+mod validate;
 
 fn main() {
     let args = vcore::parse_args();
